@@ -213,14 +213,6 @@ Fixpoint render_frame (p : pbar) (now : Z) (fm : formatter) (f : format) : res (
   | x :: r => do a <- render_piece p now fm x; do b <- render_frame p now (fst a) r; Ok (fst b, snd a ++ snd b)
   end.
 
-Fixpoint split_nl (s : str) : list str :=
-  match s with
-  | [] => [[]]
-  | c :: r => if N.eqb c LF then [] :: split_nl r
-              else match split_nl r with l :: ls => (c :: l) :: ls | [] => [[c]] end
-  end.
-Fixpoint join_nl (ls : list str) : str :=
-  match ls with [] => [] | [l] => l | l :: r => l ++ LF :: join_nl r end.
 Definition count_nl (s : str) : nat := length (filter (N.eqb LF) s).
 
 Definition decimal_width (z : Z) : nat := length (dec_text z).
@@ -289,14 +281,14 @@ Fixpoint max_vis (f : formatter) (ls : list str) (acc : nat) : res (formatter * 
 
 (* _overwrite(message) at time now: the emitted stream and the new state *)
 Definition overwrite (p : pbar) (now : Z) (message : str) : res (pbar * list emit) :=
-  do pl <- pad_lines (p_last_len p) (p_f p) (split_nl message);
+  do pl <- pad_lines (p_last_len p) (p_f p) (lines_of message);
   let p0 := set_out p (fst pl) (p_secs p) in
   let lines := snd pl in
   do pre <- (if p_ansi p0 then
                if p_section p0 then out_clear p0 (length lines / p_w p0 + p_flc p0 + 1)
                else Ok (p0, if p_quiet p0 then [] else Cr :: (match p_flc p0 with O => [] | n => [Up n] end))
              else Ok (p0, if p_quiet p0 then [] else if (0 <? p_write_count p0)%Z then [Nl] else []));
-  do wr <- out_write (fst pre) (join_nl lines) false;
+  do wr <- out_write (fst pre) (join_with NL lines) false;
   do mv <- max_vis (p_f (fst wr)) lines 0;
   Ok (set_written (set_out (fst wr) (fst mv) (p_secs (fst wr))) (snd mv) now, snd pre ++ snd wr).
 
